@@ -18,11 +18,14 @@ pub struct FragOpts {
     pub hostile_values: bool,
     /// hardly ever flush: fragments of hundreds of samples
     pub long_fragments: bool,
+    /// percent of H.264/H.265 configurations in which one supplied parameter set begins with
+    /// the bytes of an Annex B start code (supplied sets are opaque: carried byte for byte)
+    pub start_code_sets_pct: u64,
 }
 
 impl Default for FragOpts {
     fn default() -> Self {
-        FragOpts { max_ops: 50, bad_dts_pct: 8, big: false, hostile_cfg: false, constant_interval_pct: 30, allow_empty_samples: true, hostile_values: false, long_fragments: false }
+        FragOpts { max_ops: 50, bad_dts_pct: 8, big: false, hostile_cfg: false, constant_interval_pct: 30, allow_empty_samples: true, hostile_values: false, long_fragments: false, start_code_sets_pct: 0 }
     }
 }
 
@@ -94,6 +97,24 @@ pub fn gen_frag_cfg(r: &mut Rng, o: &FragOpts) -> (FragCfg, Option<av1::SeqHdr>)
         _ => {
             let f = crate::model::vp9::gen_fields(r);
             c.vp9 = Some([f.width, f.height, f.profile as u32, f.bit_depth as u32, f.color_space as u32, f.transfer as u32, f.matrix as u32, r.below(62) as u32, f.full_range as u32]);
+        }
+    }
+    if (vcodec == H264 || vcodec == H265) && r.chance(o.start_code_sets_pct, 100) {
+        let which = r.below(3);
+        let set = match which {
+            0 => c.sps.as_mut(),
+            1 => c.pps.as_mut(),
+            _ => c.vps.as_mut().or(c.sps.as_mut()),
+        };
+        if let Some(v) = set {
+            let code: &[u8] = if r.chance(1, 2) { &[0, 0, 1] } else { &[0, 0, 0, 1] };
+            if r.chance(1, 8) {
+                *v = code.to_vec();
+            } else {
+                let mut n = code.to_vec();
+                n.extend_from_slice(v);
+                *v = n;
+            }
         }
     }
     if via_builder && r.chance(1, 4) {
